@@ -1410,29 +1410,35 @@ func (vx *Vaxis) openTty(tgts []*os.File) error {
 	vx.tw = newWriter(vx)
 	vx.parser = ansi.NewParser(vx.console)
 
+	// This goroutine serves the parser it was started with: after a
+	// Suspend and Resume there is a new parser with a goroutine of its own
+	parser := vx.parser
 	go func() {
 		defer func() {
 			if err := recover(); err != nil {
-				vx.drainParser()
+				drainParser(parser)
 				vx.Close()
 				panic(err)
 			}
 		}()
 		for {
 			select {
-			case seq := <-vx.parser.Next():
+			case seq, ok := <-parser.Next():
+				if !ok {
+					return
+				}
 				switch seq := seq.(type) {
 				case ansi.EOF:
 					return
 				default:
 					vx.handleSequence(seq)
-					vx.parser.Finish(seq)
+					parser.Finish(seq)
 				}
 			case <-vx.chSigWinSz:
 				atomicStore(&vx.resize, true)
 				vx.PostEventBlocking(Redraw{})
 			case <-vx.chSigKill:
-				vx.drainParser()
+				drainParser(parser)
 				vx.Close()
 				return
 			}
@@ -1442,12 +1448,11 @@ func (vx *Vaxis) openTty(tgts []*os.File) error {
 }
 
 // drainParser discards everything the parser still delivers. The input
-// goroutine is the only consumer of the parser's output: when it is the one
+// goroutine is the only consumer of its parser's output: when it is the one
 // calling Close (kill signal, panic recovery) nobody would drain the channel
 // while Suspend waits for the parser to stop, and a parser blocked on the full
 // channel would never notice the close request
-func (vx *Vaxis) drainParser() {
-	parser := vx.parser
+func drainParser(parser *ansi.Parser) {
 	go func() {
 		for range parser.Next() {
 		}
